@@ -1,5 +1,6 @@
 import Rare.Base.Proto
 import Rare.Model.C07Acc
+import Rare.Model.C07AccCompile
 import Rare.Drv.Expr
 /-!
 Driver ops of C07 for the accumulating-group aggregator (see `harness/corr/c07acc.go`):
@@ -15,29 +16,11 @@ Driver ops of C07 for the accumulating-group aggregator (see `harness/corr/c07ac
   s:<element>                    Sample
 
 (all fields hex).  Templates are compiled by the SHARED expression model (`Rare.Expr.compile` with
-the standard registry); a template using a helper outside the model makes the whole case
-`unmodelled <name>`.  After EVERY call the full state is dumped through the public accessors.
+the standard registry) inside the model's template-level calls (`AccGroup.applyT`, `Model/C07AccCompile.lean`);
+a template using a helper outside the model makes the whole case `unmodelled <name>`.  After EVERY call the full state is dumped through the public accessors.
 -/
 namespace Rare.Drv.C07Acc
 open Rare Rare.C07 Rare.Proto Rare.Expr
-
-inductive CompileRes
-  | stage (s : Stage)
-  | errors
-  | panic
-  | unmodelled (n : String)
-
-/-- `compiler.Compile(template)` as far as `AccumulatingGroup` looks at it: a compiled builder, or errors. -/
-def compileT (opt : Bool) (t : Bytes) : CompileRes :=
-  match Rare.Drv.Expr.decodeTemplate t with
-  | none => .panic        -- the harness only sends valid UTF-8
-  | some tc =>
-    match compile Rare.Drv.Expr.registry opt tc with
-    | .error m => if m.startsWith "unmodelled:" then .unmodelled (m.drop 11).toString else .panic
-    | .ok (stages, errs) =>
-      match Rare.Drv.Expr.unmodelledTag errs with
-      | some n => .unmodelled n
-      | none => if errs.isEmpty then .stage (buildKey stages) else .errors
 
 inductive Op
   | group (name t : Bytes)
@@ -79,25 +62,40 @@ inductive Outcome
 def errAns (m : String) : Outcome :=
   if m.startsWith "unmodelled:" then .unmodelled (m.drop 11).toString else .panic
 
-/-- Apply one call with an already compiled template. -/
+def toTOp : Op → Option AccTOp
+  | .group n t => (Rare.Drv.Expr.decodeTemplate t).map (AccTOp.addGroup n)
+  | .data n t i => (Rare.Drv.Expr.decodeTemplate t).map fun tc => AccTOp.addData n tc i
+  | .sort t => (Rare.Drv.Expr.decodeTemplate t).map AccTOp.setSort
+  | .sample e => some (.sample e)
+
+def templateOf : AccTOp → Option (List Char)
+  | .addGroup _ t => some t
+  | .addData _ t _ => some t
+  | .setSort t => some t
+  | .sample _ => none
+
+/-- Apply one call through the model's template-level `AccGroup.applyT` (`Model/C07AccCompile.lean`: Go checks
+"data exists" / "duplicate name" before it compiles, then the template is never looked at).  The driver only
+adds the `unmodelled` verdict for helpers outside the shared expression model. -/
 def step (s : AccGroup) (opt : Bool) (op : Op) : Except Outcome (AccGroup × String) :=
-  let withC (t : Bytes) (k : Option Stage → AccGroup × Option String) : Except Outcome (AccGroup × String) :=
-    -- Go checks "data exists" / "duplicate name" before it compiles: then the template is never looked at
-    let pre := k none
-    if pre.2 == some "existing-data" || pre.2 == some "duplicate" then .ok (pre.1, errStr pre.2) else
-    match compileT opt t with
-    | .panic => .error .panic
-    | .unmodelled n => .error (.unmodelled n)
-    | .errors => let r := k none; .ok (r.1, errStr r.2)
-    | .stage st => let r := k (some st); .ok (r.1, errStr r.2)
-  match op with
-  | .group n t => withC t (s.addGroupExpr n)
-  | .data n t i => withC t (fun c => s.addDataExpr n c i)
-  | .sort t => withC t s.setSort
-  | .sample e =>
-    match s.sample e with
-    | .error m => .error (errAns m)
-    | .ok s' => .ok (s', "-")
+  match toTOp op with
+  | none => .error .panic        -- the harness only sends valid UTF-8
+  | some top =>
+    let unm : Option String :=
+      if s.compiles top then
+        match templateOf top with
+        | some tc =>
+          (match compile Rare.Drv.Expr.registry opt tc with
+           | .ok (_, errs) => Rare.Drv.Expr.unmodelledTag errs
+           | .error _ => none)
+        | none => none
+      else none
+    match unm with
+    | some n => .error (.unmodelled n)
+    | none =>
+      match s.applyT Rare.Drv.Expr.registry opt top with
+      | .error m => .error (errAns m)
+      | .ok (s', e) => .ok (s', if top.isSample then "-" else errStr e)
 
 def runOps (opt rev : Bool) (ops : List Op) : Outcome :=
   let rec go (s : AccGroup) (ops : List Op) (outs : List String) : Outcome :=
